@@ -21,9 +21,24 @@
      af <Z> <E> <q> <debye>                 Atomic_Factors
      err <k>                                xrl_error object life cycles (set / propagate / clear); k = 6..11: a later failing call
                                             is handed a slot that still holds an error (rc = 1 iff that error object is untouched)
-   A line prefixed `N:` runs the same operation WITHOUT an error slot.
+     cfunp <crystal> <E> <h> <k> <l> <debye> <rel_angle> <f0_flag> <fp_flag> <fpp_flag> [<fn>]   Q_scattering_amplitude (fn = q) or
+                                            Crystal_F_H_StructureFactor_Partial with every argument from the line
+     null <k>                               ONE call with NULL at a pointer position the other operations never pass NULL at (list below,
+                                            `null_call`); rc = 1 iff the behaviour is the documented one (error / no-op / NULL result)
+     cpdeep <depth> <inner> | cplong <n> <unit> [<tail>]     CompoundParser on a string synthesised here: `inner` inside `depth` bracket
+                                            pairs; `unit` repeated n times (+ tail) — longer than a protocol line may be
+     acd <s1> <w1> <s2> <w2>                add_compound_data on two parsed compounds, result released with FreeCompoundData
+     ahold <s> | adrop                      a copy looked up in the user array is KEPT across later mutations / afree; adrop uses and frees them
+     misc <k>                               0 XRayInit, 1 the five deprecated setters/getters, 2 c_abs/c_mul <k> <re> <im> <re2> <im2>,
+                                            3 xrl_strdup/xrl_strndup/xrl_malloc, 4 xrl_error_matches / xrl_error_copy on a live error
+   Prefixes (in this order, each optional):  `F<n>:` the n-th allocation made from now on fails once (returns NULL);
+     `N:` runs the operation WITHOUT an error slot;  `P:` hands the operation a slot that ALREADY holds an error.
    Answer:  `<rc> d=<live blocks after the operation and its releases minus before> e=<0|1 error object was set> c=<error code|-1> m=<message length> v=<x + bits of the numeric result | ->`
-   (rc: 1/0 = non-NULL / NULL for constructors, value != 0 for numeric functions, count for lists) */
+   (rc: 1/0 = non-NULL / NULL for constructors, value != 0 for numeric functions, count for lists)
+   followed by ` ow=<1 iff the library printed its "xrl_error set over the top of a previous xrl_error" diagnostic during the operation>
+   dg=<bytes of any other text the library wrote to the C stream stderr> fd=<open file descriptors after minus before>
+   p=<-1 | 1 iff the pre-filled slot still holds the same error object, code and message> fa=<1 iff the armed allocation failure fired>`.
+   The C stream `stderr` is pointed at a temporary file for that purpose (the sanitizers write to descriptor 2 directly). */
 #include "config.h"
 #include <stdio.h>
 #include <stdlib.h>
@@ -32,20 +47,49 @@
 #include <stdarg.h>
 #include <locale.h>
 #include <math.h>
+#include <dirent.h>
+#include <limits.h>
 #include "xraylib.h"
+#include "xraylib-aux.h"
 #include "xraylib-error-private.h"
 
 static long live_blocks = 0;
+/* allocation-failure injection: when fail_at > 0 it is decremented by every allocation request that reaches the wrappers; the request
+   that brings it to 0 fails (NULL, errno = ENOMEM) — once.  fail_hold > 0 suspends the countdown (allocations of the harness itself). */
+static long fail_at = 0; static int fail_fired = 0; static int fail_hold = 0;
+#include <errno.h>
+static int failing(void) { if (fail_hold || fail_at <= 0) return 0; if (--fail_at == 0) { fail_fired = 1; errno = ENOMEM; return 1; } return 0; }
 void *__real_malloc(size_t); void *__real_calloc(size_t, size_t); void *__real_realloc(void *, size_t);
 void __real_free(void *); char *__real_strdup(const char *); char *__real_strndup(const char *, size_t);
 int __real_vasprintf(char **, const char *, va_list);
-void *__wrap_malloc(size_t n) { void *p = __real_malloc(n); if (p) live_blocks++; return p; }
-void *__wrap_calloc(size_t a, size_t b) { void *p = __real_calloc(a, b); if (p) live_blocks++; return p; }
-void *__wrap_realloc(void *q, size_t n) { void *p = __real_realloc(q, n); if (!q && p) live_blocks++; return p; }
+void *__wrap_malloc(size_t n) { if (failing()) return NULL; void *p = __real_malloc(n); if (p) live_blocks++; return p; }
+void *__wrap_calloc(size_t a, size_t b) { if (failing()) return NULL; void *p = __real_calloc(a, b); if (p) live_blocks++; return p; }
+void *__wrap_realloc(void *q, size_t n) { if (failing()) return NULL; void *p = __real_realloc(q, n); if (!q && p) live_blocks++; return p; }
 void __wrap_free(void *p) { if (p) live_blocks--; __real_free(p); }
-char *__wrap_strdup(const char *s) { char *p = __real_strdup(s); if (p) live_blocks++; return p; }
-char *__wrap_strndup(const char *s, size_t n) { char *p = __real_strndup(s, n); if (p) live_blocks++; return p; }
-int __wrap_vasprintf(char **out, const char *fmt, va_list ap) { int r = __real_vasprintf(out, fmt, ap); if (r >= 0 && *out) live_blocks++; return r; }
+char *__wrap_strdup(const char *s) { if (failing()) return NULL; char *p = __real_strdup(s); if (p) live_blocks++; return p; }
+char *__wrap_strndup(const char *s, size_t n) { if (failing()) return NULL; char *p = __real_strndup(s, n); if (p) live_blocks++; return p; }
+int __wrap_vasprintf(char **out, const char *fmt, va_list ap) { if (failing()) { *out = NULL; return -1; } int r = __real_vasprintf(out, fmt, ap); if (r >= 0 && *out) live_blocks++; return r; }
+static char *h_strdup(const char *s) { fail_hold++; char *p = strdup(s); fail_hold--; return p; }     /* an allocation of the harness, handed to the library */
+
+/* the library's diagnostics: C stream stderr -> temporary file, looked at after every operation */
+static FILE *diag = NULL; static long diag_pos = 0; static int ow = 0; static long dgbytes = 0;
+static void diag_check(void) {
+  ow = 0; dgbytes = 0;
+  if (!diag) return;
+  fflush(diag); long cur = ftell(diag);
+  if (cur > diag_pos) {
+    static char buf[1 << 14]; long n = cur - diag_pos; if (n > (long)sizeof buf - 1) n = sizeof buf - 1;
+    fseek(diag, diag_pos, SEEK_SET); n = (long)fread(buf, 1, (size_t)n, diag); buf[n > 0 ? n : 0] = 0; fseek(diag, cur, SEEK_SET);
+    if (strstr(buf, "xrl_error set over the top of a previous xrl_error")) ow = 1; else dgbytes = cur - diag_pos;
+    if (ow) { const char *q = buf; int k = 0; while ((q = strstr(q, "xrl_error set over the top")) != NULL) { k++; q++; } ow = k; }
+  }
+  diag_pos = cur;
+}
+static int open_fds(void) {
+  int n = 0; fail_hold++; DIR *d = opendir("/proc/self/fd");
+  if (d) { while (readdir(d)) n++; closedir(d); }
+  fail_hold--; return n;
+}
 
 static int hexv(int c) { return c <= '9' ? c - '0' : (c | 32) - 'a' + 10; }
 static char *unesc(const char *s, char *out) {
@@ -69,31 +113,114 @@ static cp2 F2[] = { DCS_Rayl_CP, DCS_Compt_CP, DCSb_Rayl_CP, DCSb_Compt_CP };
 static cp3 F3[] = { DCSP_Rayl_CP, DCSP_Compt_CP, DCSPb_Rayl_CP, DCSPb_Compt_CP };
 
 static void free_list(char **l, int n) { if (!l) return; for (int i = 0; i < n; i++) xrlFree(l[i]); xrlFree(l); }
+static int list_len(char **l) { int n = 0; if (l) while (l[n]) n++; return n; }
 static int ecode = -1; static long emlen = 0;
-static int fin(xrl_error **e) { int had = *e != NULL; ecode = -1; emlen = 0; if (*e) { ecode = (int)(*e)->code; emlen = (*e)->message ? (long)strlen((*e)->message) : -1; xrl_clear_error(e); } return had; }
-static void tail(int isnum, double val) { uint64_t b; memcpy(&b, &val, 8); printf(" c=%d m=%ld v=%s%016llx\n", ecode, emlen, isnum ? "x" : "-", (unsigned long long)(isnum ? b : 0)); }
+/* per-operation state for the answer tail */
+static int fd0 = 0; static xrl_error *p0 = NULL; static int pkeep = -1;
+static int fin(xrl_error **e) {
+  int had = *e != NULL; ecode = -1; emlen = 0;
+  fail_at = 0;                                                          /* disarm: the library calls of the operation are over */
+  if (p0) pkeep = (*e == p0 && (int)(*e)->code == (int)XRL_ERROR_RUNTIME && (*e)->message && !strcmp((*e)->message, "first error"));
+  if (*e) { ecode = (int)(*e)->code; emlen = (*e)->message ? (long)strlen((*e)->message) : -1; xrl_clear_error(e); }
+  return had;
+}
+static void ext(void) { fail_at = 0; diag_check(); printf(" ow=%d dg=%ld fd=%d p=%d fa=%d\n", ow, dgbytes, open_fds() - fd0, pkeep, fail_fired); }
+static void tail(int isnum, double val) { uint64_t b; memcpy(&b, &val, 8); printf(" c=%d m=%ld v=%s%016llx", ecode, emlen, isnum ? "x" : "-", (unsigned long long)(isnum ? b : 0)); ext(); }
+
+/* a small user array holding one renamed copy of Si (allocations of the harness: not failed, but counted — the caller balances) */
+static Crystal_Array *one_crystal_array(void) {
+  fail_hold++;
+  Crystal_Array *A = Crystal_ArrayInit(2, NULL); Crystal_Struct *c = Crystal_GetCrystal("Si", NULL, NULL);
+  if (A && c) Crystal_AddCrystal(c, A, NULL);
+  Crystal_Free(c); fail_hold--; return A;
+}
+
+/* `null <k>`: NULL at pointer positions; -> 1 iff the documented behaviour (an error, a no-op, a NULL / complete result) was observed */
+#define NULL_CALLS 26
+static long null_call(int k, xrl_error **ep, xrl_error **slot) {
+  long rc = 0; Crystal_Array *A = NULL;
+  if (k == 0 || k == 1 || k == 10 || k == 24) A = one_crystal_array();
+  switch (k) {
+  case 0: rc = Crystal_ReadFile(NULL, A, ep) == 0; break;                            /* "NULL filenames are not allowed": XRL_ERROR_IO */
+  case 1: rc = Crystal_AddCrystal(NULL, A, ep) == 0; break;                          /* CRYSTAL_NULL */
+  case 2: rc = Crystal_MakeCopy(NULL, ep) == NULL; break;
+  case 3: Crystal_Free(NULL); Crystal_ArrayFree(NULL); xrl_error_free(NULL); xrlFree(NULL); xrl_clear_error(NULL); rc = 1; break;   /* no-ops */
+  case 4: FreeCompoundData(NULL); rc = 1; break;
+  case 5: FreeCompoundDataNIST(NULL); rc = 1; break;
+  case 6: FreeRadioNuclideData(NULL); rc = 1; break;
+  case 7: { char **l = GetCompoundDataNISTList(NULL, ep); rc = list_len(l); free_list(l, (int)rc); } break;      /* the count pointer may be NULL */
+  case 8: { char **l = GetRadioNuclideDataList(NULL, ep); rc = list_len(l); free_list(l, (int)rc); } break;
+  case 9: { char **l = Crystal_GetCrystalsList(NULL, NULL, ep); rc = list_len(l); free_list(l, (int)rc); } break;
+  case 10: { char **l = Crystal_GetCrystalsList(A, NULL, ep); rc = list_len(l); free_list(l, (int)rc); } break;
+  case 11: case 12: case 13: case 14: case 15: case 16: case 17: {                   /* Atomic_Factors: every combination of NULL outputs */
+    int m = k - 10; double f0 = -7, fp = -7, fpp = -7;
+    rc = Atomic_Factors(26, 8.0, 1.0, 1.0, (m & 1) ? NULL : &f0, (m & 2) ? NULL : &fp, (m & 4) ? NULL : &fpp, ep);
+    if (rc && ((!(m & 1) && f0 == -7) || (!(m & 2) && fp == -7) || (!(m & 4) && fpp == -7))) rc = 2;       /* an output that was asked for was not written */
+  } break;
+  case 18: rc = Atomic_Factors(26, 8.0, 1.0, -1.0, NULL, NULL, NULL, ep) == 0; break; /* bad Debye factor, no outputs */
+  case 19: rc = xrl_error_copy(NULL) == NULL; break;
+  case 20: rc = xrl_error_matches(NULL, XRL_ERROR_MEMORY) == 0 && xrl_error_matches(NULL, XRL_ERROR_RUNTIME) == 0; break;
+  case 21: { xrl_error *before = slot ? *slot : NULL; xrl_propagate_error(ep, NULL); rc = !slot || *slot == before; } break;   /* diagnostic + no-op */
+  case 22: { xrl_error *before = slot ? *slot : NULL; xrl_set_error_literal(ep, XRL_ERROR_IO, NULL); rc = !slot || *slot == before; } break;
+  case 23: { xrl_error *before = slot ? *slot : NULL; const char *nofmt = NULL; if (!before) xrl_set_error(ep, XRL_ERROR_IO, nofmt); rc = !slot || *slot == before; } break;
+  case 24: rc = Crystal_GetCrystal(NULL, A, ep) == NULL; break;
+  case 25: { Crystal_Struct *c = Crystal_GetCrystal(NULL, NULL, ep); rc = c == NULL; } break;
+  default: rc = -1;
+  }
+  fail_hold++; Crystal_ArrayFree(A); fail_hold--;
+  return rc;
+}
 
 int main(void) {
   static char line[1 << 16], b1[1 << 16], b2[1 << 12];
-  char *tok[8];
-  Crystal_Array *arr = NULL; long arr_base = 0;
+  char *tok[16];
+  Crystal_Array *arr = NULL; long arr_base = 0, arr_held0 = 0;
+  static Crystal_Struct *held[16]; static double held_d[16], held_v[16]; static int held_n[16]; static char held_name[16][64]; int nheld = 0; long held_blocks = 0;
   setlocale(LC_ALL, "");      /* the process locale comes from the environment (the check runs the histories under C and under C.UTF-8) */
   setvbuf(stdout, NULL, _IOLBF, 1 << 12);
+  printf("%s", "");
+  diag = tmpfile(); if (diag) stderr = diag;
   while (fgets(line, sizeof line, stdin)) {
     int nt = 0;
-    for (char *p = strtok(line, " \n"); p && nt < 8; p = strtok(NULL, " \n")) tok[nt++] = p;
+    for (char *p = strtok(line, " \n"); p && nt < 16; p = strtok(NULL, " \n")) tok[nt++] = p;
     if (nt == 0) continue;
     xrl_error *e = NULL; long base = live_blocks; long rc = 0; int had = 0; double val = 0.0; int isnum = 0;
     const char *op = tok[0];
     xrl_error **ep = &e;
+    long arm = 0;
+    fail_at = 0; fail_fired = 0; pkeep = -1; p0 = NULL;
+    if (op[0] == 'F' && op[1] >= '0' && op[1] <= '9') { char *q; arm = strtol(op + 1, &q, 10); if (*q == ':') op = q + 1; else arm = 0; }
     if (op[0] == 'N' && op[1] == ':') { ep = NULL; op += 2; }      /* the same operation without an error slot */
+    else if (op[0] == 'P' && op[1] == ':') {                       /* the slot already holds an error */
+      op += 2; fail_hold++; xrl_set_error_literal(&e, XRL_ERROR_RUNTIME, "first error"); fail_hold--; p0 = e;
+    }
+    fd0 = open_fds(); diag_check();
+    fail_at = arm;
     if (!strcmp(op, "cp") && nt == 2) { struct compoundData *cd = CompoundParser(unesc(tok[1], b1), ep); rc = cd != NULL; if (cd) FreeCompoundData(cd); }
+    else if ((!strcmp(op, "cpdeep") && nt == 3) || (!strcmp(op, "cplong") && (nt == 3 || nt == 4))) {
+      /* a formula too long / too deep for a protocol line, built here (memory of the harness: neither failed nor counted) */
+      long n = atol(tok[1]); const char *u = unesc(tok[2], b1); if (!u) u = ""; const char *t = (nt == 4) ? unesc(tok[3], b2) : ""; if (!t) t = "";
+      size_t lu = strlen(u), lt = strlen(t); if (n < 0) n = 0;
+      size_t len = (op[2] == 'd') ? (size_t)(2 * n) + lu : (size_t)n * lu + lt;
+      char *sbuf = __real_malloc(len + 1); if (!sbuf) { fail_at = 0; printf("bad-op\n"); continue; }
+      if (op[2] == 'd') { memset(sbuf, '(', (size_t)n); memcpy(sbuf + n, u, lu); memset(sbuf + n + lu, ')', (size_t)n); }
+      else { for (long i = 0; i < n; i++) memcpy(sbuf + (size_t)i * lu, u, lu); memcpy(sbuf + (size_t)n * lu, t, lt); }
+      sbuf[len] = 0;
+      struct compoundData *cd = CompoundParser(sbuf, ep); rc = cd != NULL; if (cd) { val = cd->molarMass; isnum = 1; FreeCompoundData(cd); }      /* v = molar mass: the composition does not depend on the nesting */
+      __real_free(sbuf);
+    }
+    else if (!strcmp(op, "acd") && nt == 5) {
+      struct compoundData *A = CompoundParser(unesc(tok[1], b1), ep), *B = A ? CompoundParser(unesc(tok[3], b2), ep) : NULL;
+      if (A && B) { struct compoundData *C = add_compound_data(*A, dbl(tok[2]), *B, dbl(tok[4])); rc = C != NULL;
+        if (C) { double sfr = 0; for (int i = 0; i < C->nElements; i++) sfr += C->massFractions[i]; val = sfr; isnum = 1; FreeCompoundData(C); } }
+      if (A) FreeCompoundData(A); if (B) FreeCompoundData(B);
+    }
     else if (!strcmp(op, "nistn") && nt == 2) { struct compoundDataNIST *c = GetCompoundDataNISTByName(unesc(tok[1], b1), ep); rc = c != NULL; if (c) FreeCompoundDataNIST(c); }
     else if (!strcmp(op, "nisti") && nt == 2) { struct compoundDataNIST *c = GetCompoundDataNISTByIndex(atoi(tok[1]), ep); rc = c != NULL; if (c) FreeCompoundDataNIST(c); }
-    else if (!strcmp(op, "nistl")) { int n = 0; char **l = GetCompoundDataNISTList(&n, ep); rc = n; free_list(l, n); }
+    else if (!strcmp(op, "nistl")) { int n = 0; char **l = GetCompoundDataNISTList(&n, ep); rc = l ? n : 0; free_list(l, n); }
     else if (!strcmp(op, "radn") && nt == 2) { struct radioNuclideData *c = GetRadioNuclideDataByName(unesc(tok[1], b1), ep); rc = c != NULL; if (c) FreeRadioNuclideData(c); }
     else if (!strcmp(op, "radi") && nt == 2) { struct radioNuclideData *c = GetRadioNuclideDataByIndex(atoi(tok[1]), ep); rc = c != NULL; if (c) FreeRadioNuclideData(c); }
-    else if (!strcmp(op, "radl")) { int n = 0; char **l = GetRadioNuclideDataList(&n, ep); rc = n; free_list(l, n); }
+    else if (!strcmp(op, "radl")) { int n = 0; char **l = GetRadioNuclideDataList(&n, ep); rc = l ? n : 0; free_list(l, n); }
     else if (!strcmp(op, "z2s") && nt == 2) { char *s = AtomicNumberToSymbol(atoi(tok[1]), ep); rc = s != NULL; if (s) xrlFree(s); }
     else if (!strcmp(op, "s2z") && nt == 2) { rc = SymbolToAtomicNumber(unesc(tok[1], b1), ep); }
     else if (!strcmp(op, "cscp") && nt == 6) {
@@ -114,7 +241,7 @@ int main(void) {
     }
     else if (!strcmp(op, "cfun") && nt == 8) {      /* cfun <k> <crystal> <E> <h> <k> <l> <debye>: the numeric crystal functions on a copy of a built-in crystal */
       int k = atoi(tok[1]); double E = dbl(tok[3]); int h = atoi(tok[4]), kk = atoi(tok[5]), l = atoi(tok[6]); double deb = dbl(tok[7]);
-      Crystal_Struct *c = Crystal_GetCrystal(unesc(tok[2], b1), NULL, NULL);
+      fail_hold++; Crystal_Struct *c = Crystal_GetCrystal(unesc(tok[2], b1), NULL, NULL); fail_hold--;
       /* an unknown name gives c = NULL: the functions must reject a NULL crystal with an error */
       if (k == 0) val = Bragg_angle(c, E, h, kk, l, ep);
       else if (k == 1) val = Q_scattering_amplitude(c, E, h, kk, l, 1.0, ep);
@@ -125,10 +252,33 @@ int main(void) {
       rc = val != 0.0; isnum = 1;
       Crystal_Free(c);
     }
+    else if (!strcmp(op, "cfunp") && (nt == 11 || nt == 12)) {   /* every argument of F_H_Partial (or, with a 12th token `q`, of Q_scattering_amplitude) from the line */
+      double E = dbl(tok[2]); int h = atoi(tok[3]), kk = atoi(tok[4]), l = atoi(tok[5]); double deb = dbl(tok[6]), rel = dbl(tok[7]);
+      fail_hold++; Crystal_Struct *c = Crystal_GetCrystal(unesc(tok[1], b1), NULL, NULL); fail_hold--;
+      if (nt == 12) val = Q_scattering_amplitude(c, E, h, kk, l, rel, ep);
+      else { xrlComplex z = Crystal_F_H_StructureFactor_Partial(c, E, h, kk, l, deb, rel, atoi(tok[8]), atoi(tok[9]), atoi(tok[10]), ep); val = fabs(z.re) + fabs(z.im); }
+      rc = val != 0.0; isnum = 1;
+      Crystal_Free(c);
+    }
     else if (!strcmp(op, "af") && nt == 5) {        /* af <Z> <E> <q> <debye> */
       double f0 = 0, fp = 0, fpp = 0;
       rc = Atomic_Factors(atoi(tok[1]), dbl(tok[2]), dbl(tok[3]), dbl(tok[4]), &f0, &fp, &fpp, ep);
       val = fabs(f0) + fabs(fp) + fabs(fpp); isnum = 1;
+    }
+    else if (!strcmp(op, "null") && nt == 2) { rc = null_call(atoi(tok[1]), ep, ep ? &e : NULL); }
+    else if (!strcmp(op, "misc") && nt >= 2) {
+      int k = atoi(tok[1]);
+      if (k == 0) { XRayInit(); XRayInit(); rc = AtomicWeight(26, NULL) > 0; }
+      else if (k == 1) { SetHardExit(1); SetExitStatus(3); rc = GetExitStatus() == 0; SetErrorMessages(0); rc = rc && GetErrorMessages() == 0; rc = rc && AtomicWeight(-1, NULL) == 0.0; }
+      else if (k == 2 && nt == 6) { xrlComplex x = { dbl(tok[2]), dbl(tok[3]) }, y = { dbl(tok[4]), dbl(tok[5]) }; xrlComplex z = c_mul(x, y); val = c_abs(z); isnum = 1;
+        rc = z.re == x.re * y.re - x.im * y.im && z.im == x.re * y.im + x.im * y.re; }
+      else if (k == 3) { char *a = xrl_strdup("abc"), *b = xrl_strndup("abcdef", 4); void *m = xrl_malloc(24);
+        rc = a && b && m && !strcmp(a, "abc") && !strcmp(b, "abcd"); if (m) memset(m, 0, 24); xrlFree(a); xrlFree(b); xrlFree(m); }
+      else if (k == 4) { xrl_error *e2 = NULL; fail_hold++; xrl_set_error(&e2, XRL_ERROR_IO, "io %d", 7); fail_hold--;
+        rc = xrl_error_matches(e2, XRL_ERROR_IO) == 1 && xrl_error_matches(e2, XRL_ERROR_MEMORY) == 0;
+        xrl_error *c2 = xrl_error_copy(e2); rc = rc && (!c2 || (c2 != e2 && c2->code == e2->code && c2->message != e2->message && c2->message && !strcmp(c2->message, "io 7")));
+        if (!c2 && !fail_fired) rc = 0; xrl_error_free(c2); xrl_error_free(e2); }
+      else { fail_at = 0; printf("bad-op\n"); continue; }
     }
     else if (!strcmp(op, "bfill") && nt == 2) {
       /* fill the BUILT-IN crystal collection with renamed copies of Si until it refuses, then n more refused additions: what a
@@ -140,49 +290,72 @@ int main(void) {
         long b0 = live_blocks; xrl_error *e2 = NULL;
         int ok = Crystal_AddCrystal(c, NULL, &e2);
         if (ok) rc++; else { refused++; }
-        if (e2) xrl_clear_error(&e2);
+        if (e2) { ecode = (int)e2->code; xrl_clear_error(&e2); }
         if (!ok) leaked += live_blocks - b0;
         Crystal_Free(c);
       }
       Crystal_Free(src);
-      printf("%ld d=%ld e=0", rc, leaked); tail(0, 0.0); continue;
+      { int keep = ecode; printf("%ld d=%ld e=0", rc, leaked); ecode = keep; emlen = 0; tail(0, 0.0); } continue;
     }
-    else if (!strcmp(op, "clist")) { int n = 0; char **l = Crystal_GetCrystalsList(NULL, &n, ep); rc = n; free_list(l, n); }
+    else if (!strcmp(op, "clist")) { int n = 0; char **l = Crystal_GetCrystalsList(NULL, &n, ep); rc = l ? n : 0; free_list(l, n); }
     else if (!strcmp(op, "ainit") && nt == 2) {
-      if (arr) { printf("bad-op\n"); continue; }
-      arr_base = live_blocks; arr = Crystal_ArrayInit(atoi(tok[1]), ep); rc = arr != NULL;
-      had = fin(&e); printf("%ld d=%s e=%d", rc, "open", had); tail(0, 0.0); continue;
+      if (arr) { fail_at = 0; printf("bad-op\n"); continue; }
+      arr_base = live_blocks; arr_held0 = held_blocks; arr = Crystal_ArrayInit(atoi(tok[1]), ep); rc = arr != NULL;
+      had = fin(&e);
+      if (arr) printf("%ld d=%s e=%d", rc, "open", had); else printf("%ld d=%ld e=%d", rc, live_blocks - arr_base, had);     /* a refused array: nothing may be left */
+      tail(0, 0.0); continue;
     }
     else if (!strcmp(op, "aadd") && nt == 3) {
-      if (!arr) { printf("bad-op\n"); continue; }
-      Crystal_Struct *c = Crystal_GetCrystal(unesc(tok[1], b1), NULL, ep);
+      if (!arr) { fail_at = 0; printf("bad-op\n"); continue; }
+      fail_hold++; Crystal_Struct *c = Crystal_GetCrystal(unesc(tok[1], b1), NULL, ep); fail_hold--;
       if (c) {
-        Crystal_Struct *d = Crystal_MakeCopy(c, ep);
-        if (d) { free(d->name); d->name = strdup(unesc(tok[2], b2)); rc = Crystal_AddCrystal(d, arr, ep); Crystal_Free(d); }
+        fail_hold++; Crystal_Struct *d = Crystal_MakeCopy(c, ep); fail_hold--;
+        if (d) { free(d->name); d->name = h_strdup(unesc(tok[2], b2)); rc = Crystal_AddCrystal(d, arr, ep); Crystal_Free(d); }
         Crystal_Free(c);
       }
       had = fin(&e); printf("%ld d=%s e=%d", rc, "open", had); tail(0, 0.0); continue;
     }
     else if (!strcmp(op, "aread") && nt == 2) {
-      if (!arr) { printf("bad-op\n"); continue; }
+      if (!arr) { fail_at = 0; printf("bad-op\n"); continue; }
       rc = Crystal_ReadFile(unesc(tok[1], b1), arr, ep);
       had = fin(&e); printf("%ld d=%s e=%d", rc, "open", had); tail(0, 0.0); continue;
     }
     else if (!strcmp(op, "aget") && nt == 2) {
-      if (!arr) { printf("bad-op\n"); continue; }
+      if (!arr) { fail_at = 0; printf("bad-op\n"); continue; }
       Crystal_Struct *c = Crystal_GetCrystal(unesc(tok[1], b1), arr, ep); rc = c != NULL;
       if (c) { Crystal_Struct *d = Crystal_MakeCopy(c, ep); Crystal_Free(d); Crystal_Free(c); }
       had = fin(&e); printf("%ld d=%s e=%d", rc, "open", had); tail(0, 0.0); continue;
     }
+    else if (!strcmp(op, "ahold") && nt == 2) {       /* a copy handed out by the array stays with the caller across later mutations and afree */
+      if (!arr || nheld == 16) { fail_at = 0; printf("bad-op\n"); continue; }
+      long b0 = live_blocks; Crystal_Struct *c = Crystal_GetCrystal(unesc(tok[1], b1), arr, ep); rc = c != NULL;
+      if (c) { held_d[nheld] = Crystal_dSpacing(c, 1, 1, 1, NULL); held_v[nheld] = Crystal_UnitCellVolume(c, NULL); held_n[nheld] = c->n_atom;
+               snprintf(held_name[nheld], sizeof held_name[nheld], "%s", c->name ? c->name : ""); held[nheld++] = c; held_blocks += live_blocks - b0; }
+      had = fin(&e); printf("%ld d=%s e=%d", rc, "open", had); tail(0, 0.0); continue;
+    }
+    else if (!strcmp(op, "adrop")) {                  /* use every kept copy (it must still be a complete crystal), then release it */
+      long b0 = live_blocks; rc = nheld;
+      for (int i = 0; i < nheld; i++) {
+        Crystal_Struct *c = held[i]; double d1 = Crystal_dSpacing(c, 1, 1, 1, NULL), v1 = Crystal_UnitCellVolume(c, NULL);
+        Crystal_Struct *d = Crystal_MakeCopy(c, NULL);      /* the copy is what it was when it was handed out (bit for bit), and can itself be copied */
+        if (!d || memcmp(&d1, &held_d[i], 8) || memcmp(&v1, &held_v[i], 8) || !c->name || strncmp(c->name, held_name[i], 63) || c->n_atom != held_n[i] || (d && d->n_atom != c->n_atom)) rc = -1;
+        Crystal_Free(d); Crystal_Free(c);
+      }
+      long dd = (live_blocks - b0) + held_blocks; nheld = 0; held_blocks = 0;
+      fail_at = 0; ecode = -1; emlen = 0;
+      if (arr) { arr_base += 0; printf("%ld d=%s e=0", rc, dd == 0 ? "open" : "held-imbalance"); } else printf("%ld d=%ld e=0", rc, dd);
+      tail(0, 0.0); continue;
+    }
     else if (!strcmp(op, "alist")) {
-      if (!arr) { printf("bad-op\n"); continue; }
-      int n = 0; char **l = Crystal_GetCrystalsList(arr, &n, ep); rc = n; free_list(l, n);
+      if (!arr) { fail_at = 0; printf("bad-op\n"); continue; }
+      int n = 0; char **l = Crystal_GetCrystalsList(arr, &n, ep); rc = l ? n : 0; free_list(l, n);
       had = fin(&e); printf("%ld d=%s e=%d", rc, "open", had); tail(0, 0.0); continue;
     }
     else if (!strcmp(op, "afree")) {
-      if (!arr) { printf("bad-op\n"); continue; }
+      if (!arr) { fail_at = 0; printf("bad-op\n"); continue; }
       Crystal_ArrayFree(arr); arr = NULL;
-      printf("0 d=%ld e=0\n", live_blocks - arr_base); continue;
+      ecode = -1; emlen = 0;
+      printf("0 d=%ld e=0", live_blocks - arr_base - (held_blocks - arr_held0)); tail(0, 0.0); continue;
     }
     else if (!strcmp(op, "err") && nt == 2) {
       int k = atoi(tok[1]); xrl_error *e2 = NULL;
@@ -196,26 +369,27 @@ int main(void) {
         /* an error object handed back by one call must not be affected by later calls: the slot still holds it when a later
            call fails (directly, or one level down through a temporary error that is propagated) */
         xrl_set_error_literal(&e, XRL_ERROR_RUNTIME, "first error");
-        xrl_error *p0 = e; int c0 = (int)e->code; double f0 = 0, f1 = 0, f2 = 0;
+        xrl_error *q0 = e; int c0 = (int)e->code; double f0 = 0, f1 = 0, f2 = 0;
         if (k == 6) DCS_Compt(26, 10.0, 0.0, &e);
         else if (k == 7) CS_Total_CP("H2O", -1.0, &e);
         else if (k == 8) Atomic_Factors(-1, 8.0, 1.0, 1.0, &f0, &f1, &f2, &e);
         else if (k == 9) AtomicWeight(-1, &e);
         else if (k == 10) { Crystal_Struct *c = Crystal_GetCrystal("Si", NULL, NULL); Crystal_F_H_StructureFactor(c, -1.0, 1, 1, 1, 1.0, 1.0, &e); Crystal_Free(c); }
         else CompoundParser("(", &e);
-        rc = (e == p0 && e != NULL && (int)e->code == c0 && e->message && !strcmp(e->message, "first error"));
+        rc = (e == q0 && e != NULL && (int)e->code == c0 && e->message && !strcmp(e->message, "first error"));
         had = fin(&e);
         if (arr) printf("%ld d=%s e=%d", rc, "open", had); else printf("%ld d=%ld e=%d", rc, live_blocks - base, had);
         tail(0, 0.0); continue;
       }
       rc = e != NULL;
     }
-    else { printf("bad-op\n"); continue; }
+    else { fail_at = 0; if (e) xrl_clear_error(&e); printf("bad-op\n"); continue; }
     had = fin(&e);
     if (arr) printf("%ld d=%s e=%d", rc, "open", had);       /* inside a user-array bracket the balance is taken at afree */
     else printf("%ld d=%ld e=%d", rc, live_blocks - base, had);
     tail(isnum, val);
   }
-  if (arr) { Crystal_ArrayFree(arr); printf("0 d=%ld e=0\n", live_blocks - arr_base); }
+  for (int i = 0; i < nheld; i++) Crystal_Free(held[i]);
+  if (arr) { Crystal_ArrayFree(arr); ecode = -1; emlen = 0; printf("0 d=%ld e=0", live_blocks - arr_base - (held_blocks - arr_held0)); tail(0, 0.0); }
   return 0;
 }
